@@ -214,14 +214,14 @@ impl Memfs {
 //@ rw R3 1 ⟦for config_dir in config_dirs {⟧ => ⟦for config_dir in vec_into_iter(config_dirs) {⟧
 //@ rw R1 1 ⟦config_dir.mash(config.as_ref())⟧ => ⟦config_dir.mash_s(config.as_ref())⟧
 //@ rw R3 1 for
-//@ ins before ⟦config_dirs.insert(0, config_dir);⟧
+//@ ins after ⟦if let Ok(mut config_dirs) = sys_config_dirs() {⟧
                 let ghost dirs0 = config_dirs@;
                 let ghost c0 = config_dir;
 //@ endins
-//@ ins after ⟦config_dirs.insert(0, config_dir);⟧
+//@ ins before ⟦{ let mut __it1 = vec_into_iter(config_dirs);⟧
                 let ghost cands = config_dirs@;
                 let ghost mut k: int = 0;
-                proof { assert(cands.skip(1) =~= dirs0); assert(cands[0] == c0); }
+                proof { assert(cands.len() > 0); assert(cands.skip(1) =~= dirs0); assert(cands[0] == c0); }
 //@ endins
 //@ loop 1
                     invariant
@@ -260,14 +260,14 @@ impl Stdfs {
 //@ rw R3 1 ⟦for config_dir in config_dirs {⟧ => ⟦for config_dir in vec_into_iter(config_dirs) {⟧
 //@ rw R1 1 ⟦config_dir.mash(config.as_ref())⟧ => ⟦config_dir.mash_s(config.as_ref())⟧
 //@ rw R3 1 for
-//@ ins before ⟦config_dirs.insert(0, config_dir);⟧
+//@ ins after ⟦if let Ok(mut config_dirs) = sys_config_dirs() {⟧
                 let ghost dirs0 = config_dirs@;
                 let ghost c0 = config_dir;
 //@ endins
-//@ ins after ⟦config_dirs.insert(0, config_dir);⟧
+//@ ins before ⟦{ let mut __it1 = vec_into_iter(config_dirs);⟧
                 let ghost cands = config_dirs@;
                 let ghost mut k: int = 0;
-                proof { assert(cands.skip(1) =~= dirs0); assert(cands[0] == c0); }
+                proof { assert(cands.len() > 0); assert(cands.skip(1) =~= dirs0); assert(cands[0] == c0); }
 //@ endins
 //@ loop 1
                     invariant
